@@ -41,7 +41,7 @@ JInit ==
     /\ form = Traces[tid].form /\ env = Traces[tid].env /\ lim = Traces[tid].lim /\ body = Traces[tid].body
     /\ edited = ~Traces[tid].valid
     /\ st = "iter" /\ pos = 0 /\ pro = TRUE /\ yielded = 0 /\ cur = <<>>
-    /\ pstart = 0 /\ pend = 0 /\ cache = NONE /\ dead = FALSE /\ nops = 0
+    /\ pstart = 0 /\ pend = 0 /\ cache = NONE /\ toolarge = FALSE /\ nops = 0
     /\ last = Plain("init", 0, <<>>, FALSE, "", "", <<>>)
 
 Keep == UNCHANGED vars
@@ -60,7 +60,7 @@ JudgeNext(x, e, y) ==      \* y: number of parts yielded including this one
     ELSE IF x.out # e.out THEN "P:parts"
     ELSE IF x.out = "part" /\ x.name # UNKNOWN /\ e.name # x.name THEN "P:name"
     ELSE IF x.out = "part" /\ x.fname # UNKNOWN /\ e.fname # x.fname THEN "P:filename"
-    ELSE IF x.out = "part" /\ e.ctype # x.ctype THEN "P:ctype"
+    ELSE IF x.out = "part" /\ x.ctype # UNKNOWN /\ e.ctype # x.ctype THEN "P:ctype"
     ELSE "ok"
 
 (* specification self-check on undamaged bodies: the reference iteration gives the form back *)
@@ -90,12 +90,12 @@ JudgeRead(x, e) ==
 
 Applicable(e) ==
     CASE e.op = "next"       -> st \in {"iter", "part"}
-      [] e.op = "read"       -> CanConsume
-      [] e.op = "read_until" -> CanConsume /\ Len(e.d) >= 1
-      [] e.op = "exhaust"    -> CanConsume
+      [] e.op = "read"       -> CanStream
+      [] e.op = "read_until" -> CanStream /\ Len(e.d) >= 1
+      [] e.op = "exhaust"    -> CanStream
       [] e.op = "get_data"   -> CanConsume
-      [] e.op = "get_text"   -> CanConsume /\ CTypeOf(cur) \in KnownTypes
-      [] e.op = "get_media"  -> CanConsume /\ CTypeOf(cur) = T_JSON /\ pos = pstart /\ cache = NONE
+      [] e.op = "get_text"   -> CanConsume
+      [] e.op = "get_media"  -> CanStream /\ CTypeOf(cur) = T_JSON /\ pos = pstart /\ cache = NONE
       [] e.op = "status"     -> TRUE
       [] OTHER               -> FALSE
 
@@ -121,11 +121,13 @@ Step ==
               /\ verdict' = JudgeData(last', e) /\ dnote' = WhyNote(last', e)
            \/ /\ e.op = "get_text" /\ GetText
               /\ verdict' = JudgeData(last', e) /\ dnote' = WhyNote(last', e)
+           \/ /\ e.op = "get_text" /\ GetTextOpen          \* outcome open: None, text or the parse error
+              /\ verdict' = (IF e.out \in {"ok", "none", "error"} THEN "ok" ELSE "P:exception") /\ dnote' = dnote
            \/ /\ e.op = "get_media" /\ GetMedia
               /\ verdict' = JudgeRead(last', e) /\ dnote' = dnote
            \/ /\ e.op = "status" /\ Keep
               /\ verdict' = (IF e.code = (IF everr THEN 400 ELSE 200) THEN "ok" ELSE "P:status") /\ dnote' = dnote )
-    /\ everr' = (everr \/ (last' # last /\ last'.out = "error"))
+    /\ everr' = (everr \/ last'.out = "error" \/ (last'.out = "open" /\ Ev.op = "get_text" /\ Ev.out = "error"))
     /\ l' = l + 1 /\ UNCHANGED tid
 
 Done ==
